@@ -583,6 +583,11 @@ class SymStr(Proxy):
         raise Unsupported('SymStr * %r' % (n,))
 
     def replace(self, a, b, *count):
+        if not count and isinstance(a, str) and isinstance(b, str) and len(a) > 1 and not self.is_literal():
+            # a multi-character needle cannot occur when one of its characters is known to be absent on this path
+            absent = cur().state.get('absent', set())
+            if len(self.pieces) == 1 and self.pieces[0][0] == 'sym' and any(((self._base_sym(ch) or self.key()), ch) in absent for ch in a):
+                return self
         if count or not isinstance(a, str) or not isinstance(b, str) or len(a) != 1:
             raise Unsupported('SymStr.replace(%r, %r)' % (a, b))
         out = []
@@ -647,11 +652,22 @@ class SymStr(Proxy):
         r = self.__eq__(o)
         return SymBool(z3.Not(r.e)) if isinstance(r, SymBool) else (not r)
 
+    def _base_sym(self, ch):
+        """If self is Hom(chain, <name>) and the chain neither consumes nor produces ch, then  ch in self <=> ch in <name>."""
+        if len(self.pieces) == 1 and self.pieces[0][0] == 'sym' and isinstance(ch, str) and len(ch) == 1:
+            name, chain = self.pieces[0][1], self.pieces[0][2]
+            if all(ch not in a and ch not in b for a, b in chain):
+                return name
+        return None
+
     def vf_contains(self, x):
         if isinstance(x, str) and self.is_literal():
             return x in self.literal()
         if isinstance(x, str) and len(x) >= 1 and any(p[0] == 'lit' and x in p[1] for p in self.pieces):
             return True
+        base = self._base_sym(x)
+        if base is not None:
+            return SymBool(char_in_sym(base, x))
         xs = SymStr.lift(x)
         return SymBool(_str_atom('contains', self.key(), xs.key()))
 
@@ -710,7 +726,32 @@ class SymStr(Proxy):
     def __getitem__(self, k):
         if self.is_literal():
             return self.literal()[k]
+        if isinstance(k, slice) and k.step is None and k.stop is None and (k.start is None or (isinstance(k.start, int) and k.start == 0)):
+            return self                       # s[0:] / s[:] is s
         raise Unsupported('SymStr[%r]' % (k,))
+
+    def _absent(self, ch):
+        """Fork on 'ch occurs in self'; on the negative branch the fact is recorded for this path."""
+        r = self.vf_contains(ch)
+        present = bool(r)
+        if not present:
+            cur().state.setdefault('absent', set()).add((self._base_sym(ch) or self.key(), ch))
+        return not present
+
+    def index(self, ch, *pos):
+        if self.is_literal():
+            return self.literal().index(ch, *pos)
+        if isinstance(ch, str) and len(ch) == 1 and (not pos or pos == (0,)):
+            if self._absent(ch):
+                raise ValueError('substring not found')
+            raise Unsupported('SymStr.index: symbolic position')
+        raise Unsupported('SymStr.index(%r)' % (ch,))
+
+    def find(self, ch, *pos):
+        try:
+            return self.index(ch, *pos)
+        except ValueError:
+            return -1
 
     def encode(self, *a):
         raise Unsupported('SymStr.encode')
@@ -719,6 +760,11 @@ class SymStr(Proxy):
         raise Unsupported('SymStr %% args (symbolic format string)')
 
     __hash__ = Proxy.__hash__
+
+
+def char_in_sym(name, ch):
+    """The atom 'character ch occurs in the symbolic string <name>' (usable in preconditions)."""
+    return z3.Bool('charin!%s!%d' % (name, ord(ch)))
 
 
 def sym_len(name):
